@@ -258,7 +258,7 @@ def gen_files(rng, scn):
     for i in range(scn["N"]):
         has_store = scn["reg"][i] != "none" or any(sd == i + 1 for sd in scn["side"])
         b.append(rng.choice(["json", "json", "pickle", "text", None]) if has_store else None)
-    return {"backing": b, "gap": 0.003}
+    return {"backing": b, "gap": 0.003, "stamp": rng.random() < 0.5}
 
 
 def gen_tzmix(rng, N):
@@ -406,12 +406,20 @@ def _run_history(task):
             U.log("begin", f=f, o=out, dry=True)
             info["dry"] += 1
             try:
-                phys, outnode = uberjob.run(U.plan, dry_run=True, **kw)
+                res_ = uberjob.run(U.plan, dry_run=True, **kw)
             except BaseException as ex:
                 info["unexpected"].append({"where": "dry_run", "exc": repr(ex)[:300]})
                 U.log("rend", ok=False)
                 U.log("digest", same=(d0 == U.digest()))
                 continue
+            if not (isinstance(res_, tuple) and len(res_) == 2 and isinstance(res_[0], uberjob.Plan)):
+                # a dry run returns (physical plan, output node); anything else is not a dry run's result
+                U.log("dry", known=False, ops=[], anc=[], outin=False, tpok=True)
+                U.log("digest", same=(d0 == U.digest()))
+                U.log("dryend")
+                U.log("rend", ok=False)
+                continue
+            phys, outnode = res_
             ops, anc = project_physical(U, phys)
             # (if the returned plan contains calls this harness cannot interpret - the transformation builds its read /
             # write nodes differently - its *structure* is not judged; executing it, below, still is)
